@@ -4,7 +4,8 @@
    Static.tla, at the top level or inside a block / function body, after side-effecting
    statements).  Events:
      [ev |-> "reset"]                                                    fresh Evaler
-     [ev |-> "chunk",  ast, out, exc]                                    valid chunk, as in TraceElvCore
+     [ev |-> "chunk",  ast, out, exc, check]                             valid chunk, as in TraceElvCore;
+           check = class reported by Evaler.Check on it just before the evaluation (must be "none")
      [ev |-> "static", kinds, cls, nout, nbytes, check, checkAfter, names]
            the defective chunk: kinds = the injected defect kinds; what the real code did:
            cls = error class of Evaler.Eval, nout / nbytes = number of values / bytes captured,
@@ -33,8 +34,11 @@ Step(cur, e, i) ==
   ELSE IF e.ev = "static" THEN
        IF StaticOK(e) THEN cur
        ELSE [cur EXCEPT !.skip = PrintT(<<"BAD", i, "static", Prescribed(e.kinds)>>)]
+  ELSE IF e.check # "none" THEN       \* CheckAgrees on a chunk that evaluation compiled
+       [cur EXCEPT !.skip = PrintT(<<"BAD", i, "check-valid", e.check>>)]
   ELSE LET r == EvalChunk(cur.st, e.ast) IN
        IF Skip(r.exc) THEN [st |-> cur.st, skip |-> PrintT(<<"BAD", i, "oom", r.exc.why>>)]
+       ELSE IF \E q \in 1..Len(r.out) : Opaque(r.out[q]) THEN [st |-> cur.st, skip |-> PrintT(<<"BAD", i, "oom", "opaque value in the output">>)]
        ELSE IF SeqMatches(r.out, e.out) /\ CauseMatches(r.exc, e.exc) THEN [st |-> r.st, skip |-> FALSE]
        ELSE [st |-> r.st,
              skip |-> PrintT(<<"BAD", i, "mismatch",
